@@ -87,6 +87,15 @@ CHECKS.update({
         note="Trusted: the E-SQL semantics (validated differentially against real SQLite on random valid states on every run), z3. Bounds: K=4-5 nodes, D=3 edges quick; K=5-6, D=4 thorough. Priority order (ORDER BY) and the asyncio wake-up of the job loop are outside. Two genuine defects found and repaired (see known_findings.json).",
     ),
 })
+CHECKS.update({
+    "C12": dict(
+        engine="E-SQL",
+        ref="DESIGN.md section 5 / C12",
+        technique="bounded SMT over a symbolic relational database (E-SQL) with the real Scheduler.pop_next_job, Step.hold and Step.release run natively by the fork-on-concretise executor; models replayed on a real SQLite database through the real classes",
+        text="Resource and hold clauses as inductive steps from any state within the capacity bound: one real pop_next_job() keeps 'units held by RUNNING steps <= available, and no RUNNING step requires an undefined resource', and moves a step to RUNNING only without a stored hash (CHECKING otherwise); after hold() on a RUNNING step, the next pop_next_job() never moves a descendant to RUNNING; hold()/release() flag every cache they make stale.",
+        note="The job limit (an asyncio loop counting running tasks) and promoted hash jobs are not state and are outside. Scheduler._derive_job is stubbed in these obligations. Bounds: K=4 nodes quick, 5 thorough; 2 resource requirements, 2 available resources with 0..3 units.",
+    ),
+})
 NOT_APPLICABLE = {
     "C15": "Atomicity/isolation are delivered by SQLite's C transaction machinery (BEGIN IMMEDIATE/commit/rollback) and asyncio task scheduling; the remaining Python has no symbolic input for a solver to range over, and a model of rollback would restate the assumption (DESIGN.md section 6).",
 }
